@@ -19,6 +19,27 @@ ASSUMPTIONS = ['references: numpy / numpy.linalg / scipy.linalg / scipy.special 
 
 UNIQUE_FACTOR = {'qr', 'qr_full', 'cholesky', 'lu', 'eigh'}
 
+# element-wise functions whose zeroth coefficient is the very NumPy/SciPy function applied to x_0: exact equality,
+# also at base points of tiny magnitude (where e.g. log1p / expm1 differ from log(1+x) / exp(x)-1)
+EXACT_ZEROTH = {'exp', 'expm1', 'log', 'log1p', 'sqrt', 'sin', 'cos', 'tan', 'arcsin', 'arccos', 'arctan', 'sinh', 'cosh', 'tanh',
+                'erf', 'erfi', 'dawsn', 'gammaln', 'psi', 'expit', 'absolute', 'negative', 'square', 'reciprocal'}
+
+
+def tiny_base_points(rng, case):
+    """put a few base points of tiny magnitude into an element-wise case (where the domain allows it)"""
+    name = case['op'][3:]
+    dom = c01.TABLE[name]['dom']
+    if dom not in ('any', 'small', 'tan', 'unit', 'pos') or name in ('log', 'sqrt', 'reciprocal', 'gammaln', 'psi', 'pow_real', 'pow_negint'):
+        return
+    x = np.array(case['args'][0]['v'])
+    flat = x[0].reshape(-1)
+    for _ in range(rng.randint(1, 2)):
+        v = rng.choice([1e-10, 3e-17, 1e-30, 2.5e-9])
+        if dom != 'pos' and rng.random() < 0.5:
+            v = -v
+        flat[rng.randrange(flat.size)] = v
+    case['args'][0]['v'] = x
+
 
 def zeroth_fails(case):
     o = ops.OPS[case['op']]
@@ -54,6 +75,9 @@ def zeroth_fails(case):
                 return 'shape-%s: output %d is not a (D,P)+shape array' % (case['op'], i)
             if a.shape[2:] != r.shape:
                 return 'shape-%s: output %d has coefficient shape %s, NumPy gives %s' % (case['op'], i, a.shape[2:], r.shape)
+            if case['op'].startswith('ew:') and case['op'][3:] in EXACT_ZEROTH and not np.array_equal(np.asarray(a[0, p]), r):
+                return 'zeroth-exact-%s: direction %d: the zeroth coefficient is not exactly what the NumPy/SciPy function returns for x_0 (max relative diff %s)' % (
+                    case['op'], p, float(np.max(np.abs(np.asarray(a[0, p]) - r) / np.maximum(np.abs(r), 1e-300))))
             if not close(a[0, p], r, tol=1e-10):
                 return 'zeroth-%s: output %d, direction %d: zeroth coefficient differs from the NumPy/SciPy result (max diff %s)' % (
                     case['op'], i, p, maxdiff(a[0, p], r))
@@ -172,6 +196,9 @@ def run(ctx):
     for i in range(n):
         name = names[i % len(names)]
         case = ops.gen_case(ctx.rng, ctx.tier, name)
+        if name.startswith('ew:') and name[3:] in EXACT_ZEROTH and ctx.rng.random() < 0.4 and np.array(case['args'][0]['v'])[0].size:
+            tiny_base_points(ctx.rng, case)
+            ctx.count('tiny-base-point')
         ctx.evaluations += 1
         ctx.count('op=' + case['op'].split(':')[0], 'D=%d' % case['D'])
         h = canon_hash(to_jsonable(case))
